@@ -1,5 +1,6 @@
 import Arp.Props.C01AddSub
 import Arp.Props.C01MulDiv
+import Arp.Props.SpecRound
 /-!
 # C01 — add, subtract, multiply and divide are correctly rounded in every rounding mode
 
